@@ -12,8 +12,9 @@ use crate::Ctx;
 use narsese::conversion::inter_type::lexical_fold::TryFoldInto;
 use narsese::enum_narsese::Narsese;
 
-const WS_CHARS: [char; 14] = [
-    ' ', '\t', '\n', '\r', '\u{b}', '\u{c}', '\u{85}', '\u{a0}', '\u{1680}', '\u{2003}', '\u{2028}', '\u{2029}', '\u{205f}', '\u{3000}',
+const WS_CHARS: [char; 25] = [
+    ' ', '\t', '\n', '\r', '\u{b}', '\u{c}', '\u{85}', '\u{a0}', '\u{1680}', '\u{2000}', '\u{2001}', '\u{2002}', '\u{2003}', '\u{2004}', '\u{2005}',
+    '\u{2006}', '\u{2007}', '\u{2008}', '\u{2009}', '\u{200a}', '\u{2028}', '\u{2029}', '\u{202f}', '\u{205f}', '\u{3000}',
 ];
 
 /// the run-time body of `enum_nse!`: strip every whitespace char, then parse_chars with FORMAT_ASCII
@@ -163,6 +164,56 @@ fn inside_failure(f: Fmt, nd: &ND, seed: u64) -> Option<(Pipe, String, String)> 
         text.push(*rng.pick(&WS_CHARS));
     }
     text_failure(f, Pipe::LexFold, &text, &want).map(|w| (Pipe::LexFold, text, w))
+}
+
+/// several spacings of one value as ONE parse_multi batch (compact first, so that anything the
+/// reused state remembers about blanks in the first input would show on the later ones)
+fn multi_failure(f: Fmt, nd: &ND, seed: u64) -> Option<(String, String)> {
+    let toks = tokens(f, nd, &mut sugar_of(seed));
+    let want = nd.canon();
+    let n = toks.len();
+    let mut rng = Rng::new(seed ^ 0xABCD);
+    let texts: Vec<String> = vec![
+        render(&toks, &vec![0; n + 1], " "),
+        render(&toks, &vec![1; n + 1], " "),
+        render(&toks, &random_spacing(n, &mut rng, 3), " "),
+        render(&toks, &vec![0; n + 1], " "),
+        render(&toks, &random_spacing(n, &mut rng, 10), " "),
+    ];
+    let r = observe(|| {
+        f.e()
+            .parse_multi(texts.iter().map(|s| s.as_str()))
+            .into_iter()
+            .map(|r| r.map(|v| canon_real_narsese(&v)).map_err(|e| e.to_string()))
+            .collect::<Vec<_>>()
+    });
+    match r {
+        Obs::Ret(rs) => {
+            for (i, r) in rs.iter().enumerate() {
+                match r {
+                    Ok(c) if *c == want => {}
+                    Ok(c) => return Some((texts[i].clone(), format!("parse_multi position {} ({:?}) = {} (expected {}) in batch {:?}", i, texts[i], c, want, texts))),
+                    Err(e) => return Some((texts[i].clone(), format!("parse_multi position {} ({:?}) = Err({}) in batch {:?}", i, texts[i], e, texts))),
+                }
+            }
+            None
+        }
+        Obs::Panic(p) => Some((texts[0].clone(), format!("parse_multi panicked at {} on batch {:?}", panic_site(&p), texts))),
+    }
+}
+
+fn check_multi(ctx: &mut Ctx, f: Fmt, nd: &ND, seed: u64) {
+    ctx.report.eval();
+    ctx.report.bump("spacing.parse_multi-batch");
+    if let Some((_, why)) = multi_failure(f, nd, seed) {
+        let small = shrink_nd(nd, &mut |c| multi_failure(f, c, seed).is_some(), 200);
+        let why2 = multi_failure(f, &small, seed).map(|x| x.1).unwrap_or(why);
+        ctx.report.violate(
+            format!("C09|{}|parse_multi|{}", f.name(), small.canon()),
+            format!("[{}] {}", f.name(), why2),
+            J::obj().set("format", f.name()).set("pipeline", "parse_multi").set("value", small.to_json()).set("spacing_seed", seed).set("why", why2.clone()),
+        );
+    }
 }
 
 fn check(ctx: &mut Ctx, f: Fmt, nd: &ND, kind: &str, seed: u64) {
@@ -359,6 +410,7 @@ pub fn run(ctx: &mut Ctx) {
             check(ctx, f, &nd, "random", s);
         }
         let s = rng.next_u64();
+        check_multi(ctx, f, &nd, s);
         check(ctx, f, &nd, &format!("unicode:{}", rng.below(WS_CHARS.len())), s);
         check(ctx, f, &nd, "inside-tokens", s);
     }
@@ -370,6 +422,14 @@ pub fn run(ctx: &mut Ctx) {
 
 pub fn replay(ctx: &mut Ctx, d: &J) -> Option<()> {
     let f = fmt_of(d)?;
+    if jstr(d, "pipeline").as_deref() == Some("parse_multi") {
+        let nd = nd_from_json(d.get("value")?)?;
+        let seed = d.get("spacing_seed")?.as_i128()? as u64;
+        if let Some((_, w)) = multi_failure(f, &nd, seed) {
+            ctx.report.violate(format!("C09|{}|parse_multi|{}", f.name(), nd.canon()), w, d.clone());
+        }
+        return Some(());
+    }
     if let Some(text) = jstr(d, "text") {
         let nd = nd_from_json(d.get("value")?)?;
         let pipe = Pipe::from(&jstr(d, "pipeline")?);
